@@ -177,6 +177,32 @@ Theorem f1_leaves_nothing_behind : forall n e g s v s',
 Proof. exact GenF1Rest.f1_leaves_nothing_behind_lemma. Qed.
 Print Assumptions f1_leaves_nothing_behind.
 
+(* the two machine models agree: every step of C02's VM model (values, scope chain) that stays inside the
+   code is a step of C04's value-free machine on the same code (GenAnnot.to_bytecode), between the
+   projected states — GenF1.step is abstracted by astep, instruction by instruction *)
+Theorem step_is_astep : forall n code fi s s', GenF1Rest.back_ok code ->
+  GenF1.step n code s = GenF1.Next s' -> GenF1.pc s' <= length code ->
+  astep (to_bytecode code) fi (GenF1Rest.proj s) (GenF1Rest.proj s').
+Proof. exact GenF1Rest.step_is_astep_lemma. Qed.
+Print Assumptions step_is_astep.
+
+(* the code of the generator model never jumps backwards out of the code *)
+Theorem gen_back_ok : forall c n e, GenF1Rest.back_ok (GenF1.gen c n e).
+Proof. exact GenF1Rest.gen_back_ok. Qed.
+Print Assumptions gen_back_ok.
+
+(* for / break / continue on the value-free machine that check_fn, toplevel_rest and the trace
+   conformance speak about: for EVERY F1 program whose evaluation returns a value there is a run (arun)
+   of the mapped code from the interpreter at rest to the end of the code that leaves exactly one value,
+   hence rest after Run has popped it *)
+Theorem f1_value_arun : forall n fi e g s v s',
+  GenF1.f1 e = true -> cc [] e = true -> eval n [g] e s = (Done v, s') ->
+  exists c1, arun (to_bytecode (GenF1.gen GenF1.top 0 e)) fi (mkc 0 [] 1 0 0) c1 /\
+             Verifier.pc c1 = length (to_bytecode (GenF1.gen GenF1.top 0 e)) /\ data c1 = [Val] /\
+             at_rest (run_finish c1) = true.
+Proof. exact GenF1Rest.f1_value_arun_closed_lemma. Qed.
+Print Assumptions f1_value_arun.
+
 (* non-vacuity: (for la: [(def i 0) (< i 3) (set i (+ i 1))] (for [(def j 0) (< j 3) (set j (+ j 1))]
    (trace j) (cond (== j 1) (break la:) nil))) is in F1 and its evaluation returns a value *)
 Example f1_value_run_applies :
